@@ -33,7 +33,7 @@ var (
 			"parse back to the client's own request (method, target, token header, body), every client receives status, headers and body of the "+
 			"response posted under its own id, a completed id is absent from later pending lists; non-trivial = at least 2 requests in flight for "+
 			"one backend or a payload >= 1000000 bytes; distinct = SHA-256 of the case"+
-			" Later additions: backend ids of 400 bytes; request targets with query strings a canonicalising hop would rewrite.")
+			" Later additions: backend ids of 400 bytes; request targets with query strings a canonicalising hop would rewrite; requests fetched a second time before and/or after their response (200 => the same bytes again).")
 	recB = vh.NewRecorder("C19", "blobs",
 		"requests and responses of sizes {0,1,999999,1000000,1000001,1999999,2000000,2000001,3000001,3500000, and 11-31 MB needing ten and more parts} written and read back through "+
 			"cache.NewCachingStore(store.NewPersistentStore()) in-process on the fake datastore/memcache, with memcache kept or flushed between "+
@@ -128,6 +128,9 @@ type Req struct {
 	AgentMs   int    `json:"agent_delay_ms"`
 	Order     int    `json:"respond_order"`
 	Query     string `json:"extra_query,omitempty"` // appended to the request target: parameters a canonicalising hop would rewrite
+	// Refetch: the request is fetched once more (a second replica of the agent that saw the same pending list, or a
+	// retry): 1 = before the response is posted, 2 = after the client has received it, 3 = both
+	Refetch int `json:"refetch,omitempty"`
 }
 
 type RelayCase struct {
@@ -161,6 +164,7 @@ func genRelay(t *rapid.T) RelayCase {
 		q := Req{Backend: rapid.IntRange(0, c.Backends-1).Draw(t, "backend"), Method: rapid.SampledFrom([]string{"POST", "POST", "GET", "PUT"}).Draw(t, "method"),
 			AgentMs: rapid.SampledFrom([]int{0, 0, 5, 50}).Draw(t, "agentMs"), Order: rapid.IntRange(0, 100).Draw(t, "order")}
 		q.RespSize = rapid.SampledFrom([]int{100, 100, 1000, 50000}).Draw(t, "respSmall")
+		q.Refetch = rapid.SampledFrom([]int{0, 0, 1, 2, 3}).Draw(t, "refetch")
 		q.Query = rapid.SampledFrom([]string{"", "", "", "&b=2&a=1", "&q=a%20b", "&debug", "&x=a,b/c:d", "&a=1&a=0&", "&%7e=%7E"}).Draw(t, "query")
 		if big < 2 && rapid.IntRange(0, 3).Draw(t, "big") == 0 {
 			big++
@@ -346,9 +350,29 @@ func runRelay(t vh.TB, c *RelayCase) vh.Outcome {
 			}
 		}
 	}
+	refetch := func(f *inflight, when string) error {
+		b := backends[f.q.Backend]
+		resp := r.Do("agent", "GET", "/agent/request", agentHeaders(b, f.rid), nil, aerig.Identity{OAuthEmail: b.agent}, 20*time.Second)
+		if resp.Err != nil {
+			return fmt.Errorf("second fetch of request %s (%s) failed: %v", f.rid, when, resp.Err)
+		}
+		// a proxy may refuse to hand a request out again; if it does hand it out, it must be the client's request
+		if resp.Status == 200 && !bytes.Equal(resp.Body, f.fetched) {
+			return fmt.Errorf("request %s of client %s was fetched a second time %s and answered 200 with %d bytes (hash %s); the first fetch had returned the client's serialised request of %d bytes (hash %s)",
+				f.rid, f.tok, when, len(resp.Body), vh.HashBytes(resp.Body), len(f.fetched), vh.HashBytes(f.fetched))
+		}
+		return nil
+	}
 	for _, f := range order {
 		if f.q.AgentMs > 0 {
 			time.Sleep(time.Duration(f.q.AgentMs) * time.Millisecond)
+		}
+		if f.q.Refetch&1 != 0 {
+			o.Classes = append(o.Classes, "fetched-twice-before-the-response")
+			if err := refetch(f, "before the response was posted"); err != nil {
+				o.Err = err
+				return o
+			}
 		}
 		b := backends[f.q.Backend]
 		wire := respBytes(f.tok, f.q.RespSize)
@@ -376,6 +400,13 @@ func runRelay(t vh.TB, c *RelayCase) vh.Outcome {
 			o.Err = fmt.Errorf("client %s did not receive the response posted under its id within 45s", f.tok)
 			o.TimedOut = true
 			return o
+		}
+		if f.q.Refetch&2 != 0 {
+			o.Classes = append(o.Classes, "fetched-again-after-the-response")
+			if err := refetch(f, "after its response had been posted and delivered"); err != nil {
+				o.Err = err
+				return o
+			}
 		}
 	}
 	// a completed id is no longer listed
